@@ -55,6 +55,14 @@ Theorem C08_key_fixed_point : forall (cwd : str) (cs : list str),
 Proof. exact norm_fixed_point. Qed.
 Print Assumptions C08_key_fixed_point.
 
+(* ... for EVERY string: normalising twice is normalising once, so a baseline key, however it was spelled
+   when it was written (backslashes, an absolute path below the current directory, stray separators), is found
+   again when it is looked up *)
+Theorem C08_norm_idempotent : forall (cwd p : str), existsb (N.eqb c_bslash) cwd = false ->
+  norm cwd (norm cwd p) = norm cwd p.
+Proof. exact norm_idem. Qed.
+Print Assumptions C08_norm_idempotent.
+
 Theorem C08_root_is_empty_path : forall cc : list str, wf_cwd_comps cc = true ->
   norm (cwd_of cc) [c_dot] = [] /\ norm (cwd_of cc) [c_dot; c_slash] = [] /\
   norm (cwd_of cc) (cwd_of cc) = [] /\ norm (cwd_of cc) (cwd_of cc ++ [c_slash]) = [].
